@@ -41,6 +41,10 @@ BASES = {
     # a text that %import-s a component: what the import added holds inside and after included fragments
     'B6': ('I12', ['%import vfq_a', ['<', W('t1'), ' n1>'], ['</', ['=', 't1'], '>'], '<tb>', 'kb 1', '</tb>',
                    ['<', W('t2'), '/>'], 'kz z']),
+    # a %define written inside a section (definitions are global to the configuration wherever they are
+    # written): cuts that take it out of the section without the header
+    'B7': ('S2', ['<ta n1>', ['  %define ', ['n', 1, 'a'], ' 2'], ['  ka $', ['n', 1, 'b']], '</ta>',
+                  ['kt $', ['n', 1, 'c']]]),
 }
 
 # (base, [(file to cut from, i, j, new file name relative to BASE)], balanced?)
@@ -75,6 +79,10 @@ CUTS_Q += [
     ('B2', [(MAINNAME, 0, 2, 'x/$a.conf')], True),
     ('B1', [(MAINNAME, 1, 5, 'x/my%20dir/inc.conf')], True),
     ('B4', [(MAINNAME, 3, 6, 'caf%C3%A9/f2.conf')], True),
+    # a blank / a tab inside the reference: the argument of %include is the whole rest of the line
+    ('B1', [(MAINNAME, 1, 5, 'x/my dir/inc.conf')], True),
+    ('B4', [(MAINNAME, 3, 6, 'two words.conf')], True),
+    ('B3', [(MAINNAME, 1, 5, 'x/a b/inc.conf'), ('x/a b/inc.conf', 1, 3, 'x/a b/c  d.conf')], True),
     # fragment names that differ from an includer further up the chain in letter case only (other resources)
     ('B1', [(MAINNAME, 1, 5, 'x/MAIN.conf')], True),
     ('B1', [(MAINNAME, 1, 5, 'x/inc.conf'), ('x/inc.conf', 1, 3, 'x/Main.Conf')], True),
